@@ -49,6 +49,37 @@ func runC19(c *Ctx) {
 			if _, m := Match(Extract("1", c.RoleCall("rwriter.opts")), c.RetX(ret, 1)); m {
 				continue // the option-parsing error is passed through
 			}
+			// a nil writer, request or URL is the caller's programming error, not a client's request: what is
+			// returned for it is not constrained
+			progErr := false
+			for _, fct := range c.FactsAt(b) {
+				if m, isNil := Match(EqNil(Bind("v")), fct.Cond); isNil && fct.Val {
+					if v := strip(m["v"]); v != nil && (v.Op == "param" || (v.Op == "field" && v.Name == "URL" && strip(v.Args[0]) != nil && strip(v.Args[0]).Op == "param")) {
+						progErr = true
+					}
+				}
+			}
+			if !progErr {
+				// (the tests may be joined with ||: then every disjunct is such a nil test)
+				var allNil func(x *X) bool
+				allNil = func(x *X) bool {
+					if x.Op == "binop" && x.Name == "||" && len(x.Args) == 2 {
+						return allNil(x.Args[0]) && allNil(x.Args[1])
+					}
+					m, isNil := Match(EqNil(Bind("v")), x)
+					if !isNil {
+						return false
+					}
+					v := strip(m["v"])
+					return v != nil && (v.Op == "param" || (v.Op == "field" && v.Name == "URL" && strip(v.Args[0]) != nil && strip(v.Args[0]).Op == "param"))
+				}
+				if f, ok := c.orFact(b); ok && allNil(f.Cond) {
+					progErr = true
+				}
+			}
+			if progErr {
+				continue
+			}
 			for _, e := range c.Leaves(c.RetX(ret, 1), ret) {
 				if e.Op == "nil" {
 					continue
@@ -68,6 +99,52 @@ func runC19(c *Ctx) {
 				c.Check(okSt, "C19.W1-client-errors-are-4xx", nw.Name+" › error return #"+itoa(n), ret.Pos(), "returns apierror.New(_, 4xx)", "constructor returns an error that is not a 4xx API error: "+abbreviate(e.String()))
 			}
 		}
+		// a key of any length is looked up: multihashes have no maximum size (an identity multihash inlines its data),
+		// so no length test in the constructor turns away what is longer than some constant
+		instrs(nw.SSA, func(in ssa.Instruction) {
+			iff, ok := in.(*ssa.If)
+			if !ok {
+				return
+			}
+			bo, isBin := iff.Cond.(*ssa.BinOp)
+			if !isBin {
+				return
+			}
+			k, isK := bo.Y.(*ssa.Const)
+			if !isK || k.Value == nil {
+				return
+			}
+			kv, err := strconv.ParseInt(k.Value.ExactString(), 10, 64)
+			if err != nil {
+				return
+			}
+			if x := strip(c.E(bo.X)); x == nil || x.Op != "builtin" || x.Name != "len" {
+				return
+			}
+			const huge = int64(1) << 20
+			var holds bool
+			switch bo.Op {
+			case token.GTR:
+				holds = huge > kv
+			case token.GEQ:
+				holds = huge >= kv
+			case token.LSS:
+				holds = huge < kv
+			case token.LEQ:
+				holds = huge <= kv
+			default:
+				return
+			}
+			for i, succ := range iff.Block().Succs {
+				ret, isRet := succ.Instrs[len(succ.Instrs)-1].(*ssa.Return)
+				if !isRet || len(ret.Results) != 2 || c.RetX(ret, 1).Op == "nil" {
+					continue
+				}
+				if holds == (i == 0) {
+					c.Bad("C19.W1-client-errors-are-4xx", nw.Name+" › no upper bound on the key", iff.Pos(), "a request is turned away because something in it is longer than "+k.Value.ExactString()+": a valid multihash key can be of any length, and its results would never be read back")
+				}
+			}
+		})
 		c.Floor("C19.W1-client-errors-are-4xx", 6)
 	}
 
